@@ -15,8 +15,13 @@ use crate::par;
 use crate::prng::{fnv, Rng};
 use crate::wl::{Gen, GenOpts, LitOpts, Style, ALL_FAULTS};
 
-pub const ALPHABET: [u8; 21] = [
-    b'A', b'B', b'Z', b':', b';', b',', b'?', b'*', b'#', b'"', b'\'', b'.', b'+', b'-', b'E', b'H', b'1', b'9', b' ', b'\n', 0x80,
+/// Class-representative alphabet: two mnemonic letters that exist in the compact
+/// interface (A, B), one that does not (Z), the radix / exponent letters (E, H, Q),
+/// underscore, every punctuation character of the grammar, digits 0 (block length
+/// zero, leading zeros, boolean), 1 and 9, blank, newline, a non-ASCII byte.
+pub const ALPHABET: [u8; 24] = [
+    b'A', b'B', b'Z', b':', b';', b',', b'?', b'*', b'#', b'"', b'\'', b'.', b'+', b'-', b'E', b'H', b'Q', b'_', b'0', b'1', b'9', b' ', b'\n',
+    0x80,
 ];
 
 #[derive(Default)]
@@ -115,6 +120,17 @@ const RUN_WRITERS: [WriterKind; 10] = [
 
 fn exhaust_one(acc: &mut Acc, iface: &IfaceDesc, s: &[u8], ones: &[usize], max_n: usize) {
     par::case_begin(s, [0, 0, 0, 0]);
+    if max_n == 0 {
+        // deepest level of the thorough enumeration: three configurations only
+        let out = (iface.run)(&RunSpec { inputs: &[s], writer: WriterKind::Heapless(2), pend_seed: 0 });
+        judge(acc, iface, &[s], cfg_desc("run", Some(WriterKind::Heapless(2)), 0, &[], 0), &out);
+        for n in [3usize, 8] {
+            let out = (iface.process)(&ProcSpec { stream: s, n, chunks: &[], pend_seed: 0, fault_at: None });
+            judge(acc, iface, &[s], cfg_desc("process", None, n, &[], 0), &out);
+        }
+        par::case_end();
+        return;
+    }
     for w in RUN_WRITERS {
         let out = (iface.run)(&RunSpec { inputs: &[s], writer: w, pend_seed: 0 });
         judge(acc, iface, &[s], cfg_desc("run", Some(w), 0, &[], 0), &out);
@@ -129,7 +145,7 @@ fn exhaust_one(acc: &mut Acc, iface: &IfaceDesc, s: &[u8], ones: &[usize], max_n
     par::case_end();
 }
 
-fn exhaust_shard(iface: &IfaceDesc, prefix: &[u8], max_len: usize, max_n: usize) -> Acc {
+fn exhaust_shard(iface: &IfaceDesc, prefix: &[u8], max_len: usize, max_n: usize, deep_reduced: bool) -> Acc {
     let mut acc = Acc::default();
     let ones = vec![1usize; max_len + 1];
     // all strings prefix·t with |prefix·t| <= max_len
@@ -137,7 +153,9 @@ fn exhaust_shard(iface: &IfaceDesc, prefix: &[u8], max_len: usize, max_n: usize)
     let mut idx: Vec<usize> = Vec::new();
     let mut count = 0u64;
     loop {
-        exhaust_one(&mut acc, iface, &s, &ones, max_n);
+        // thorough: strings of the maximal length get the reduced configuration set
+        let n_here = if deep_reduced && s.len() == max_len { 0 } else { max_n };
+        exhaust_one(&mut acc, iface, &s, &ones, n_here);
         count += 1;
         // next string in DFS order
         if s.len() < max_len {
@@ -419,7 +437,7 @@ pub fn run(ctx: &Ctx) -> PropResult {
                 }
             }
             if i < a * a {
-                exhaust_shard(mini, &[ALPHABET[i / a], ALPHABET[i % a]], max_len, max_n)
+                exhaust_shard(mini, &[ALPHABET[i / a], ALPHABET[i % a]], max_len, max_n, ctx.thorough && !ctx.tiny)
             }
             else if i == a * a {
                 // lengths 0 and 1
@@ -473,7 +491,7 @@ pub fn run(ctx: &Ctx) -> PropResult {
         res.merge(r);
     }
     res.rule = format!(
-        "exhaustive: every string of length <= {} over the {}-symbol class alphabet through run (10 writers incl. capacities 0,1,2,3,8,64) and process::<N> for N=1..={} (one read and byte-wise); random: structured messages (valid, each fault kind, payload newlines) mutated, through run (whole / per message) and process with random N, chunking and Pending pattern over {} interfaces; long: {} hand-built extreme inputs. distinct = distinct input byte strings",
+        "exhaustive: every string of length <= {} over the {}-symbol class alphabet through run (10 writers incl. capacities 0,1,2,3,8,64) and process::<N> for N=1..={} (one read and byte-wise; in the thorough tier the strings of the maximal length get 3 configurations); random: structured messages (valid, each fault kind, payload newlines) mutated, through run (whole / per message) and process with random N, chunking and Pending pattern over {} interfaces; long: {} hand-built extreme inputs. distinct = distinct input byte strings",
         max_len, a, max_n, all.len(), longs
     );
     res.cov("exhaustive_strings", ex_strings);
